@@ -11,6 +11,7 @@ import (
 	"bytes"
 	"fmt"
 	"hash/fnv"
+	"os"
 	"runtime"
 	"sort"
 	"strconv"
@@ -424,6 +425,11 @@ func (s *Sched) Run(root func()) {
 					return
 				}
 				if len(s.parked) == 0 && s.live > 0 {
+					if os.Getenv("VERIF_DUMP") != "" {
+						buf := make([]byte, 1<<20)
+						n := runtime.Stack(buf, true)
+						os.Stderr.Write(buf[:n])
+					}
 					s.Deadlock = true
 					s.Aborted = true
 					s.DeadReport = s.report()
